@@ -72,7 +72,7 @@ pub open spec fn colmax(lu: Seq<f64>, n: int, j: int, p: int, lo: int, hi: int) 
     forall|r: int| lo <= r < hi ==> r_abs(rv(#[trigger] at2(lu, n, r, j))) <= r_abs(rv(at2(lu, n, p, j)))
 }
 '''
-LU_SPEC = PERM_SPEC + LU_ONLY_SPEC + r'''
+PERM_SWAP_LEMMA = r'''
 pub proof fn lemma_perm32_swap(p: Seq<i32>, n: int, a: int, b: int) requires is_perm32(p, n), 0 <= a < n, 0 <= b < n
     ensures is_perm32(p.update(a, p[b]).update(b, p[a]), n)
 {
@@ -84,6 +84,8 @@ pub proof fn lemma_perm32_swap(p: Seq<i32>, n: int, a: int, b: int) requires is_
         if pi < pk { assert(p[pi] != p[pk]); } else { assert(pk < pi); assert(p[pk] != p[pi]); }
     }
 }
+'''
+LU_SPEC = PERM_SPEC + LU_ONLY_SPEC + PERM_SWAP_LEMMA + r'''
 '''
 LU_NRA = [Lemma('nra_quot_bounded', 'x p ax ap q', ['(distinct p 0)', '(= q (/ x p))', '(or (= ax x) (= ax (- x)))', '(>= ax 0)', '(or (= ap p) (= ap (- p)))', '(>= ap 0)', '(<= ax ap)'],
                 ['(<= q 1)', '(>= q (- 1))'])]
